@@ -592,3 +592,58 @@ def c04(ctx):
 
 def coo_runs(ctx):
     pass
+
+
+# ---------------------------------------------------------------------------
+def count_reduce_mc(ctx, combos):
+    for (W, L, cap) in combos:
+        cfg = ("CONSTANTS W = %d L = %d Cap = %d\nSPECIFICATION Spec\nINVARIANTS AtMostOnce ExactlyOnceAtEnd\n"
+               "PROPERTY Terminates\nCHECK_DEADLOCK FALSE\n" % (W, L, cap))
+        vlib.mc(ctx, "CountReduce", cfg, name="CountReduce-W%dL%dC%d" % (W, L, cap), disabled_ok=("Reduce",) if cap == 0 else ())
+
+
+@prop("C19", "bpetrain", "Trace_BpeTrain")
+def c19(ctx):
+    q = ctx.quick()
+    ctx.rule = ("MC: every behaviour of the greedy machine BpeTrain.tla for corpora of <=3 distinct words from an 8-word pool "
+                "(repeats inside words, overlaps, exhaustible) x frequencies 1..2 x 0..5 requested merges (invariants: no duplicate "
+                "entry, table well-formed, at most the requested merges; termination; negative control: merging zero-frequency pairs); "
+                "CountReduce.tla for the counting threads; A: TLC-enumerated corpora materialised as files, real train_bpe with "
+                "num_threads 0/1/3, every written table validated as a behaviour of the spec (tie choice and split searched by TLC), "
+                "then loaded into a real BPETokenizer and checked with the C02/C04 clauses; B: random corpora. "
+                "non-trivial = >=2 merges or corpus exhausted before the requested number")
+    ctx.assumptions = ["corpora use ASCII letters and single spaces, so that clean/NFKC/word splitting are the identity on the view",
+                       "pair frequency = number of adjacent positions (overlapping counted) x word count"]
+    mcfg = ("CONSTANTS Words <- MCWords MaxDistinct = %d MaxFreqC = 2 MaxMerges = 5 AllowZero = %s\nSPECIFICATION Spec\n"
+            "INVARIANTS NoDuplicates WellFormedTable AtMostRequested WordsIntact\nPROPERTY Terminates\nCHECK_DEADLOCK FALSE\n")
+    vlib.mc(ctx, "MC_BpeTrain", mcfg % (2 if q else 3, "FALSE"), name="BpeTrain", disabled_ok=("ZeroStep",))
+    vlib.mc(ctx, "MC_BpeTrain", mcfg % (2, "TRUE"), name="BpeTrain-neg", expect_violation="NoDuplicates", coverage=False)
+    count_reduce_mc(ctx, [(2, 3, 2), (3, 4, 3)] if q else [(2, 4, 2), (3, 4, 3), (4, 5, 4)])
+    gcfg = "CONSTANTS MaxDistinct = %d MaxFreqC = 2 MaxMerges = %d\nINIT Init\nNEXT Next\nCHECK_DEADLOCK FALSE\n" % ((2, 4) if q else (3, 5))
+    cases, n = vlib.tlc_generate(ctx, "Gen_BpeTrain", gcfg, "cases-a.ndjson")
+    keys = ["corpus", "num_merges", "threads", "tab"]
+    obs_a, _, _ = vlib.exec_and_judge(ctx, "bpetrain", cases, "Trace_BpeTrain", "A", sample_keys=keys, per_case_timeout_ms=20000)
+    ctx.exhaustive = True
+    rnd = ctx.path("cases-b.ndjson")
+    vlib.harness(["gen", "bpetrain", ctx.seed, 1500 if q else 15000, rnd])
+    obs_b, _, _ = vlib.exec_and_judge(ctx, "bpetrain", rnd, "Trace_BpeTrain", "B", sample_keys=keys, per_case_timeout_ms=20000)
+    # a tokenizer built from the trained table satisfies the lossless / vocabulary properties
+    seen, tcases = set(), []
+    for o in obs_a + obs_b:
+        if o.get("st") != "ok" or not o["tab"]:
+            continue
+        key = json.dumps(o["tab"])
+        if key in seen:
+            continue
+        seen.add(key)
+        texts = []
+        words = [bytes(c["b"]).decode() for c in o["corpus"]]
+        texts = words + ["".join(words), " ".join(w.strip() for w in words) + "  ", "", " "]
+        tcases.append({"kind": "bpe", "special": {"tokens": ["<pad>", "<b>"], "pad": "<pad>", "prefix": ["<b>"], "suffix": []},
+                       "g": False, "unk": "<u>", "max_vocab": 0, "tab": [e["b"] for e in o["tab"]],
+                       "tab_ids": [e["id"] for e in o["tab"]], "texts": texts})
+        if len(tcases) >= (400 if q else 4000):
+            break
+    tpath = ctx.path("cases-tok.ndjson")
+    vlib.write_ndjson(tpath, tcases)
+    tok_judge(ctx, tpath, "trained-tables", {"C02", "C04"})
